@@ -50,6 +50,11 @@ func (a *Activation) memcpyField(st *State, f flatField, dst, doff, src, soff, n
 	g.assertLine(T(SBool, fmt.Sprintf(
 		"(forall ((l Loc)) (! (= (select %s l) (ite (and (= (kind l) 1) (= (fld_id l) %d) (= (kind (fld_obj l)) 2) (= (elem_arr (fld_obj l)) %s) (bvule %s (elem_idx (fld_obj l))) (bvult (bvsub (elem_idx (fld_obj l)) %s) %s)) (select %s (fld (elem %s (bvadd %s (bvsub (elem_idx (fld_obj l)) %s))) %d)) (select %s l))) :pattern ((select %s l))))",
 		hn.S, f.id, dstN.S, doffN.S, doffN.S, nN.S, hold.S, srcN.S, soffN.S, doffN.S, f.id, hold.S, hn.S)), hn)
+	di := bvop("bvadd", doffN, T(bvSort(64), "i"))
+	si := bvop("bvadd", soffN, T(bvSort(64), "i"))
+	g.assertLine(T(SBool, fmt.Sprintf(
+		"(forall ((i (_ BitVec 64))) (! (=> (bvult i %s) (= (select %s (fld (elem %s %s) %d)) (select %s (fld (elem %s %s) %d)))) :pattern ((select %s (fld (elem %s %s) %d)))))",
+		nN.S, hn.S, dstN.S, di.S, f.id, hold.S, srcN.S, si.S, f.id, hn.S, dstN.S, di.S, f.id)), hn)
 	st.heaps[f.sort] = hn
 	g.recordCopy(hn, h, dstN, f.id)
 }
@@ -86,24 +91,16 @@ func (a *Activation) havocElems(st *State, elemT types.Type, sl Term) {
 func (a *Activation) appendStructs(st *State, s, more Term, elemT types.Type, fields []flatField, pos token.Pos) Term {
 	g := a.g
 	n := g.define("apn", sLen(more))
-	newLen := g.define("apl", bvop("bvadd", sLen(s), n))
-	a.allocCheck(st, newLen, pos)
-	fits := g.define("fits", bvcmp("bvule", newLen, sCap(s)))
-	fresh := g.newObject(st, "append")
-	newCap := g.fresh("apcap", bvSort(64))
-	g.assertLine(and(bvcmp("bvuge", newCap, newLen), bvcmp("bvule", newCap, bv64(1<<40))), newCap)
-	resArr := g.define("apa", ite(fits, sArr(s), fresh))
-	resOff := g.define("apo", ite(fits, sOff(s), bv64(0)))
-	resCap := ite(fits, sCap(s), newCap)
-	oldN := ite(fits, bv64(0), sLen(s))
-	a.frameRangeCond(st, fits, sArr(s), bvop("bvadd", sOff(s), sLen(s)), n, pos)
+	resArr, resOff, newLen, resCap := a.appendPrep(st, s, n, pos)
 	for _, f := range fields {
 		if l, ok := constBV(sLen(s)); !ok || l != 0 {
-			a.memcpyField(st, f, fresh, bv64(0), sArr(s), sOff(s), oldN)
+			a.memcpyField(st, f, resArr, resOff, sArr(s), sOff(s), sLen(s))
 		}
 		a.memcpyField(st, f, resArr, bvop("bvadd", resOff, sLen(s)), sArr(more), sOff(more), n)
 	}
 	res := mkSlice(resArr, resOff, newLen, resCap)
-	res = ite(and(eq(n, bv64(0)), eq(sArr(s), nilLoc)), s, res)
+	if c, ok := constBV(n); !ok || c == 0 {
+		res = ite(and(eq(n, bv64(0)), eq(sArr(s), nilLoc)), s, res)
+	}
 	return g.define("app", res)
 }
